@@ -37,6 +37,9 @@ type C13Case struct {
 	Bystanders bool `json:"bystanders,omitempty"`
 	// Null: the override block of Key is written without any setting ("deb:" followed by nothing - YAML null)
 	Null bool `json:"null_block,omitempty"`
+	// PerPackager (validate): the contents address one destination to each format (another source each), and a file
+	// for one format where another format has a directory of files
+	PerPackager bool `json:"per_packager_contents,omitempty"`
 }
 
 func overridableShape() []cfgLeaf {
@@ -180,6 +183,11 @@ func init() {
 					return
 				}
 				if !yield(C13Case{Part: "validate", Key: k, Null: true}) {
+					return
+				}
+			}
+			for _, k := range Formats {
+				if !yield(C13Case{Part: "validate", Key: k, PerPackager: true}) {
 					return
 				}
 			}
@@ -645,6 +653,21 @@ func checkC13(env *engine.Env, ci any) engine.Outcome {
 				doc["overrides"].(map[string]any)[f] = map[string]any{"depends": []any{"y-" + f}}
 			}
 		}
+		if c.PerPackager {
+			// every entry is for one format only: no two of them ever meet in a package
+			tr := tree(env)
+			var cs []any
+			srcs := []string{"etc/app.conf", "etc/empty", "bin/app", "doc/README", "share/ww.txt"}
+			for i, f := range Formats {
+				cs = append(cs, map[string]any{"src": tr.P(srcs[i]), "dst": "/etc/app/settings.conf", "packager": f})
+				if i%2 == 0 {
+					cs = append(cs, map[string]any{"src": tr.P(srcs[i]), "dst": "/opt/app/plugin", "packager": f})
+				} else {
+					cs = append(cs, map[string]any{"src": tr.P(srcs[i]), "dst": "/opt/app/plugin/main.so", "packager": f})
+				}
+			}
+			doc["contents"] = cs
+		}
 		text := fixture.Doc(doc).YAML()
 		registered := false
 		for _, f := range Formats {
@@ -666,7 +689,7 @@ func checkC13(env *engine.Env, ci any) engine.Outcome {
 				viol("merge:get-error:"+c.Key, "Get(%s) failed: %v\n%s", c.Key, gerr, text)
 			}
 		}
-		out.Key = fmt.Sprintf("validate:%s:%s:%v:%v:%v:%v", c.Key, c.Key2, c.All, c.Empty, c.Null, verr != nil)
+		out.Key = fmt.Sprintf("validate:%s:%s:%v:%v:%v:%v:%v", c.Key, c.Key2, c.All, c.Empty, c.Null, c.PerPackager, verr != nil)
 		if registered && verr != nil {
 			viol("merge:validate-rejects-registered:"+c.Key, "Validate rejects an override block for the registered format %q: %v", c.Key, verr)
 		}
